@@ -63,6 +63,8 @@ def run(prog, rep, tier):
     apply(rep, "R6", "a new input is pulled for an ALT-list only by its first branch (left-to-right per input)", r_stream.r6(prog), 1)
     import r_lex
     apply(rep, "Y2", "scanner fields local to a start condition are initialised when it is entered", r_lex.y2(prog), 2)
+    import r_core
+    apply(rep, "P2b", "the type profile overload dispatch reads equals the types of the top values after every push/pop/drop (stack class interpreted): no stack loses its results to a stale profile", r_core.p2b(prog, tier), 2)
     e9 = r_stream.e9(prog, tier)
     apply(rep, "E9", "the op engine as a whole yields exactly the stacks the documented meaning of the constructs gives, in order, for ~400 (quick) / 2500 (thorough) query trees (build.cc and op.cc interpreted end to end against a reference semantics)", e9, 10)
     if tier == "thorough" and not os.environ.get("VERIF_NO_MUTANTS"):
